@@ -86,8 +86,9 @@ Theorem C15_second_run_noop :
 Proof. exact second_run_noop. Qed.
 Print Assumptions C15_second_run_noop.
 
-(* A template that cannot be generated makes the command fail, and every other template outside skipped
-   directories that can be generated still gets its sibling. *)
+(* A template that cannot be generated - it does not parse, its code is rejected by gofmt, or ([fails]) its output
+   cannot be written because a directory sits at the sibling path - makes the command fail, and every other
+   template outside skipped directories that can be generated and written still gets its sibling. *)
 Theorem C15_failure_isolated :
   forall (generate : path -> bytes -> option bytes) (keep lazy : bool) (now : N)
          (root : bytes) (l : listing) (w : nat) (es : list path) (c : cfg),
@@ -97,7 +98,8 @@ Theorem C15_failure_isolated :
   steps generate keep lazy now w (start_cfg (lookup l) es) c -> finished c ->
   (forall src, In src (map fst l) -> fails generate (lookup l) src = true -> exit_fail (cerrs c) = true)
   /\ (forall src g cc mt code, outside_skipped src = true -> sibling src g ->
-        lookup l src = Some (File cc mt) -> generate src cc = Some code -> content_of (ctree c g) = CFile code).
+        lookup l src = Some (File cc mt) -> generate src cc = Some code -> lookup l g <> Some Dir ->
+        content_of (ctree c g) = CFile code).
 Proof.
   intros g k z n root l w es c WF _ EV St Fi.
   exact (failure_isolated g k l (ctree c) _ (generate_spec g k z n root l w es c WF EV St Fi)).
@@ -158,5 +160,23 @@ Example C15_ex_run :
   /\ tree st ([], bs "b_templ.go") = None
   /\ tree st ([], bs "old_templ.go") = None
   /\ tree st ([bs "vendor"], bs "v_templ.go") = None
+  /\ exit_fail (errs st) = true.
+Proof. vm_compute. repeat split; reflexivity. Qed.
+
+(* an output path blocked by a (non-empty) directory: that template fails, the directory stays, the others are generated *)
+Definition ex3_tree : listing :=
+  [ (([], bs "a.templ"), File (bs "A") 10%N);
+    (([], bs "a_templ.go"), Dir);
+    (([bs "a_templ.go"], bs "keep.txt"), File (bs "k") 1%N);
+    (([], bs "b.templ"), File (bs "B") 10%N);
+    (([], bs "z_templ.go"), Dir);
+    (([bs "z_templ.go"], bs "keep.txt"), File (bs "k") 1%N) ].
+Example C15_ex_blocked_output :
+  let st := run ex2_gen false false 99%N (init (lookup ex3_tree)) (walk ex3_tree) in
+  wf_tree ex2_gen false (bs "site") ex3_tree = true
+  /\ fails ex2_gen (lookup ex3_tree) ([], bs "a.templ") = true
+  /\ tree st ([], bs "a_templ.go") = Some Dir
+  /\ tree st ([], bs "z_templ.go") = Some Dir
+  /\ tree st ([], bs "b_templ.go") = Some (File (bs "go:B") 99%N)
   /\ exit_fail (errs st) = true.
 Proof. vm_compute. repeat split; reflexivity. Qed.
